@@ -36,8 +36,7 @@ package ocsp
 //@     IsHTTP(server) && (exists r *xocsp.Response :: CurrentFor(r, c, iss) && (r.Status == xocsp.Good || ExcusedByInvalidityDate(r, t))) }
 //@ stmt spec func RevokedEvidence(c *x509.Certificate, iss *x509.Certificate, server string, t time.Time) bool {
 //@     IsHTTP(server) && (exists r *xocsp.Response :: CurrentFor(r, c, iss) && r.Status == xocsp.Revoked) }
-//@ spec func IsUnknownStatus(e error) bool { errors.Is(e, box(UnknownStatusErrorValue())) }
-//@ abstract func UnknownStatusErrorValue() UnknownStatusError
+//@ spec func IsUnknownStatus(e error) bool { errors.Is(e, box(zero(type(UnknownStatusError)))) }
 
 //@ func Supported(cert)
 //@   ensures [def] result <==> (cert != nil && len(cert.OCSPServer) > 0)
@@ -111,7 +110,7 @@ package ocsp
 //@   ensures [ok=>evidence] result.Result == result.ResultOK ==> (exists k :: 0 <= k && k < len(cert.OCSPServer) && OKEvidence(cert, issuer, cert.OCSPServer[k], opts.SigningTime))
 //@   ensures [revoked=>evidence] result.Result == result.ResultRevoked ==> (exists k :: 0 <= k && k < len(cert.OCSPServer) && RevokedEvidence(cert, issuer, cert.OCSPServer[k], opts.SigningTime))
 //@   ensures [decisive=>single] (result.Result == result.ResultOK || result.Result == result.ResultRevoked) ==> len(result.ServerResults) == 1 && result.ServerResults[0] != nil && result.ServerResults[0].Result == result.Result && (exists k :: 0 <= k && k < len(cert.OCSPServer) && result.ServerResults[0].Server == cert.OCSPServer[k])
-//@   ensures [unknown=>shape] (Supported$(cert) && result.Result == result.ResultUnknown) ==> (len(result.ServerResults) == 1 && result.ServerResults[0] != nil && result.ServerResults[0].Result == result.ResultUnknown) || (len(result.ServerResults) == len(cert.OCSPServer) && (forall k :: 0 <= k && k < len(cert.OCSPServer) ==> result.ServerResults[k] != nil && result.ServerResults[k].Result == result.ResultUnknown && result.ServerResults[k].Server == cert.OCSPServer[k]))
+//@   ensures [unknown=>shape] (Supported$(cert) && result.Result == result.ResultUnknown) ==> (len(result.ServerResults) == 1 && result.ServerResults[0] != nil && result.ServerResults[0].Result == result.ResultUnknown && IsUnknownStatus(result.ServerResults[0].Error)) || (len(result.ServerResults) == len(cert.OCSPServer) && (forall k :: 0 <= k && k < len(cert.OCSPServer) ==> result.ServerResults[k] != nil && result.ServerResults[k].Result == result.ResultUnknown && result.ServerResults[k].Server == cert.OCSPServer[k]))
 //@   loop 0
 //@     invariant cert != nil && len(serverResults) == len(cert.OCSPServer) && ocspURLs == cert.OCSPServer && fresh(serverResults)
 //@     invariant forall k :: 0 <= k && k < it ==> serverResults[k] != nil && serverResults[k].Result == result.ResultUnknown && serverResults[k].Server == cert.OCSPServer[k]
